@@ -11,7 +11,7 @@ from ..terms import mkbin, walk, show, simplify
 from ..kernels import collapse, kwargs, storage_root
 from ..pat import has, find, find_all
 
-NARROW = {'int8': 8, 'int16': 16, 'int32': 32, 'uint8': 8, 'uint16': 16}
+NARROW = {'int8': 8, 'int16': 16, 'int32': 32, 'uint8': 8, 'uint16': 16, 'inherited': 8}
 # dimension classes by the repo's naming convention (docstrings: "shape (ploidy, n_base)")
 BOUNDED_DIMS = {'ploidy', 'max_ploidy', 'n_parents', 'k'}
 UNBOUNDED_DIMS = {'n_base', 'n_pos', 'n_positions', 'n_reads', 'n_read', 'u_reads', 'n_haplotypes', 'n_samples',
@@ -26,6 +26,10 @@ def narrow_dtype(call: ast.Call):
         for nm in NARROW:
             if s in (f'np.{nm}', f'numpy.{nm}', f"'{nm}'", f'"{nm}"'):
                 return nm
+        if s.endswith('.dtype'):
+            # element type taken over from another array: genotypes, haplotypes and allele arrays are int8 throughout the package,
+            # so the array is as narrow as the narrowest of them
+            return 'inherited'
     return None
 
 
